@@ -576,6 +576,7 @@ doTbl(char **tok, int ntok) {
 #include "lvh_dump.h"
 #include "lvh_meta.h"
 #include "lvh_log.h"
+#include "lvh_lex.h"
 
 int
 main(int argc, char **argv) {
@@ -701,6 +702,7 @@ main(int argc, char **argv) {
 		} else if (doDumpOp(tok, ntok)) {
 		} else if (doMetaOp(tok, ntok)) {
 		} else if (doLogOp(tok, ntok)) {
+		} else if (doLexOp(tok, ntok)) {
 		} else {
 			printf("BADOP\n");
 		}
